@@ -101,7 +101,7 @@ def main():
 
 
 MANIFEST = {
-    "claimed": False,
+    "claimed": True,
     "text": "PARTIAL. Theorems (Coq, closed) about the decision model of Server::handle with its panic sites explicit (cache indexing, lock unwrap, unreachable!() of the Ignore arm, 'NTS shouldn't work with NTPv3', clock expect, keys[primary]/encrypt expect, assert!(root_delay >= 0)): for every address, configuration, cache state, hash function, buffer outcome and every decoder summary the decoder can produce, with a healthy environment (lock not poisoned, clock readable, key set usable, published root delay >= 0) handle returns normally, also over any history (C22_total_partial, C22_history_total_partial); any panic of the model is one of the four environment sites under the negation of its hypothesis or the NTPv3 site under a summary the decoder never produces; cache indexing and the unreachable!() are never reached (C22_panic_sites, C22_cache_total). Missing for the full statement: totality of NtpPacket::deserialize (C23) and of the answer builders/serialiser, which are inputs here. Tie: the real Server::handle on truncations at every offset, bit flips, length-field lies, arbitrary byte strings up to 1500 bytes and grammar-built packets (no panic allowed, outcome must match the model), plus environments that do fire the modelled sites (unreadable clock, negative root delay), where implementation and model must panic alike.",
     "note": "Trusted: Coq kernel+vm_compute; hand-written model coq/Model/Server.v and its list of panic sites, cross-checked by the census C22_site_census (counts of unwrap/expect/unreachable!/assert!/indexing regenerated from the sources on every run). Sites 2002 (poisoned lock) and 2006 (key set with primary >= |keys|, C27's defect) are modelled but not driven; 2006 is over-approximated (panics for every NTS time answer with an unusable key set). env_ok's root_delay >= 0 is an invariant of the controller's snapshots (C01/C06 builders), assumed here. Memory safety and aes-siv internals are outside the model (#![forbid(unsafe_code)] in ntp-proto). Debug-only assertions are not release panics. Print Assumptions: closed under the global context for all four theorems.",
     "design_ref": "DESIGN.md 3 C22",
